@@ -37,6 +37,8 @@ def jobs_for(tier, seed, what):
                   for k in range(4)])
         J.append([{"gen": "exh", "W": 1, "depth": 2, "part": k, "nparts": n, "z3": z3n, "meta": meta, "spell": True}
                   for k in range(n)])
+        J.append([{"gen": "concat", "W": W, "part": k, "nparts": 2, "z3": z3n, "meta": meta, "spell": False,
+                   "shard": 20000} for W in (2, 3) for k in range(2)])
         if tier == "quick":
             J.append([{"gen": "exh", "W": 2, "depth": 2, "part": k, "nparts": n, "z3": z3n, "meta": meta,
                        "spell": False, "sample": 2, "seed": seed, "shard": 20000} for k in range(n)])
